@@ -16,11 +16,15 @@ MdKnown(e) == LET k == MdKnownKey(e) IN
 VARIABLE l
 
 Init == l = 1
+(* The acceptance test is the condition of an IF: TLC then evaluates it as *)
+(* an ordinary expression (LET definitions are evaluated once and cached);  *)
+(* as a disjunct of the action it would be expanded in action mode, where   *)
+(* every use of a LET definition re-evaluates it.                           *)
 Next == /\ l <= Len(Events)
         /\ LET e == Events[l] IN
-             \/ MdAccept(e)
-             \/ /\ MdKnown(e) # ""
-                /\ PrintT(<<"@@", "KF", MdKnown(e), e.i>>)
+             IF MdAccept(e) THEN TRUE
+             ELSE /\ MdKnown(e) # ""
+                  /\ PrintT(<<"@@", "KF", MdKnown(e), e.i>>)
         /\ l' = l + 1
 Spec == Init /\ [][Next]_l
 Reached == PrintT(<<"@@", "REACHED", TLCGet("stats").diameter - 1>>)
